@@ -23,7 +23,7 @@ func init() {
 		Real: "real: all of github.com/c4pt0r/kvql built from /repo's working tree (lexer, parser, checker, optimizers, every plan node, functions) and beorn7/perks; simulated: the storage engine behind kvql.Storage/kvql.Cursor (SimStorage) and the calling application (driver)",
 		NCases: func(tier string) int {
 			if tier == "thorough" {
-				return 300000
+				return 1200000
 			}
 			return 40000
 		},
